@@ -1,6 +1,6 @@
 (* C20 - The TT linear layer computes the dense affine map it represents. *)
 From Coq Require Import List Arith.
-From TT Require Import RingSig SumN Mat Dense Core Arith MatOps CoreP ArithP MatOpsP.
+From TT Require Import RingSig Instances Dual SumN Mat Dense Core Arith MatOps CoreP ArithP MatOpsP ReduceDimsP FrameP DualP CoreGradP.
 Import ListNotations.
 
 Section C20.
@@ -23,6 +23,24 @@ Theorem C20_loop_spec (x : ttm R) v ms r0_ : chained4 r0_ x -> length ms = lengt
   sum_idx (shapeN x) (fun ns => sum_n r0_ (fun r => v r ns * chainM (slices4 x ms ns) r O)).
 Proof. exact (dmv_loop_spec x v ms r0_). Qed.
 
+(* gradients: over dual numbers (C15) the eps-component of forward is its directional derivative - the product rule against the dense operator, plus
+   the direction of the bias; and the derivative of an operator entry with respect to ONE core of the layer is the frame of the other cores applied to
+   the perturbation of that core (through the merged row-column mode): the gradients autograd accumulates in the layer's parameters *)
+Theorem C20_forward_grad (W : ttm (dual R)) (bias X : dense (dual R)) b ms :
+  wf4 W -> length ms = length W -> length b = (length (dshape X) - length W)%nat ->
+  (length W <= length (dshape X))%nat -> dshape bias = shapeM W ->
+  tg (dget (forward W bias X) (b ++ ms)) =
+    sum_idx (shapeN W) (fun ns => pr (entry4 W ms ns) * tg (dget X (b ++ ns)) + tg (entry4 W ms ns) * pr (dget X (b ++ ns))) + tg (dget bias ms).
+Proof. exact (forward_grad W bias X b ms). Qed.
+Theorem C20_operator_core_grad k (W : ttm (dual R)) ms ns c : wf4 W -> nth_error W k = Some c -> length ms = length W -> Forall2 lt ns (shapeN W) ->
+  Forall tg0 (firstn k (flatM W)) -> Forall tg0 (skipn (S k) (flatM W)) ->
+  let idx := merge_idx (shapeN W) ms ns in
+  tg (entry4 W ms ns) = sum_n (q0 c) (fun p => sum_n (q1 c) (fun q =>
+    pr (phiL (flatM W) idx k p) * tg (e3 (flat4 c) p (nth k idx 0%nat) q) * pr (phiR (flatM W) idx k q))).
+Proof. exact (entry4_core_grad k W ms ns c). Qed.
+
 End C20.
 Print Assumptions C20_forward_affine.
 Print Assumptions C20_loop_spec.
+Print Assumptions C20_forward_grad.
+Print Assumptions C20_operator_core_grad.
